@@ -15,11 +15,12 @@ reuses a payload buffer only when it has exactly the needed length and then make
 read vectors (so it is overwritten in full – C17 `read_any_segmentation`); the server's read
 buffers are zeroed over the bytes handed out before they return to the pool; the pooled encode
 buffer of `send` is released only after the frame has been written, the pooled receive buffers
-of `recv` only when it returns (decoding is over). -/
+of `recv` only when it returns (decoding is over); `tread.handle` never returns a read buffer to
+the pool itself (the reply references it until `PayloadCleanup`). -/
 theorem buffers_cleared_or_overwritten :
     Gen.registryPutClearsPayload = true ∧ Gen.recvPayloadExactOrFresh = true ∧
     Gen.readBufferZeroedOnCleanup = true ∧ Gen.sendBufferReleasedAfterWrite = true ∧
-    Gen.recvBufferReleasedOnReturn = true := by decide
+    Gen.recvBufferReleasedOnReturn = true ∧ Gen.treadNeverReleasesItsBuffer = true := by decide
 
 /-- **Decoded content is a function of the frame alone**: decoding into an object that held any
 earlier message gives exactly what decoding into a fresh object gives, for every layout whose
